@@ -1,4 +1,5 @@
 import D2P.Model.Walk
+import D2P.Model.Output
 /-!
 # C13: the validity predicate (definitions only; shared by the driver and `Props/C13Total`)
 -/
@@ -68,5 +69,19 @@ def validL : List Xml → Bool
   | [] => true
   | k :: ks => validT k && validL ks
 end
+
+/-! ## a whole package -/
+
+/-- the part can be read (its XML, its relationships) and what is walked — the merged tree — is valid -/
+def partOK (o : Opts) (a : Archive) (files : List Rel) (r : Rel) : Bool :=
+  match rootElement o a files r, partRels a files r with
+  | .ok cr, .ok _ => validT cr.2
+  | _, _ => false
+
+/-- relationships can be listed, the numbering part (if any) can be read, every content part is `partOK` -/
+def validPkg (o : Opts) (a : Archive) : Bool :=
+  match a.files, numId2Attrs a with
+  | .ok files, .ok _ => partTypes.all fun t => (filesOfType files [lit t]).all (partOK o a files)
+  | _, _ => false
 
 end D2P
